@@ -293,16 +293,28 @@ func (c *Ctx) ruleKeepAliveStart(rr *RuleRep, m *reconnModel) {
 		if !ok {
 			continue
 		}
-		if _, isPI := isFieldLoad(bin.X, "ReconnectOptions", "PingInterval"); !isPI {
+		// the edge on which PingInterval > 0 holds: `PI > 0` true, `PI <= 0` false, `0 < PI` true, `0 >= PI` false
+		pos := -1
+		_, xPI := isFieldLoad(bin.X, "ReconnectOptions", "PingInterval")
+		_, yPI := isFieldLoad(bin.Y, "ReconnectOptions", "PingInterval")
+		kx, xK := constInt(bin.X)
+		ky, yK := constInt(bin.Y)
+		switch {
+		case xPI && yK && ky == 0 && bin.Op == token.GTR:
+			pos = 0
+		case xPI && yK && ky == 0 && bin.Op == token.LEQ:
+			pos = 1
+		case yPI && xK && kx == 0 && bin.Op == token.LSS:
+			pos = 0
+		case yPI && xK && kx == 0 && bin.Op == token.GEQ:
+			pos = 1
+		}
+		if pos < 0 {
 			continue
 		}
-		k, isK := constInt(bin.Y)
-		if !isK || k != 0 {
-			continue
-		}
-		if bin.Op == token.GTR && DominatedByEdge(f, m.KeepGo, b, 0, PathQ{}) {
-			// exact guard: the go statement is on every path of the true edge
-			if _, ok := c.mustFollowFrom(f, b.Succs[0].Instrs[0], func(x ssa.Instruction) bool { return x == ssa.Instruction(m.KeepGo) }, nil); ok {
+		if DominatedByEdge(f, m.KeepGo, b, pos, PathQ{}) {
+			// exact guard: the go statement is on every path of that edge
+			if _, ok := c.mustFollowFrom(f, b.Succs[pos].Instrs[0], func(x ssa.Instruction) bool { return x == ssa.Instruction(m.KeepGo) }, nil); ok {
 				dom = true
 			}
 		}
@@ -362,7 +374,7 @@ func (c *Ctx) ruleKeepAliveStart(rr *RuleRep, m *reconnModel) {
 		first := cs.Edge.B.Succs[cs.Edge.K].Instrs[0]
 		isCancel := func(x ssa.Instruction) bool {
 			k, ok := x.(*ssa.Call)
-			return ok && k.Call.Value == cancel
+			return ok && (k.Call.Value == cancel || c.Resolve(k.Call.Value) == cancel)
 		}
 		if _, ok := c.mustFollowFrom(f, first, isCancel, nil); !ok {
 			// also accept reaching the next dial only through cancel
